@@ -104,8 +104,46 @@ Fixpoint do_select (guard : bool) (shards : list shard) (pre post : list Q) : li
       end
   end.
 
+(** The two loops AS CODED (search/shards.go).  [has_repos] = the closure returned by hasReposForPredicate:
+      any = false; all = true; for _, repo := range repos { b := pred(repo); any = any || b; all = all && b }; return any, all
+    — every repository of the shard is looked at, no early exit.  [select_loop] = the loop over the shards:
+      if s.repos == nil { filtered = append(filtered, s); filteredAll = false }
+      else if any, all := hasRepos(s.repos); any { filtered = append(filtered, s); filteredAll = filteredAll && all }.
+    [do_select_coded] is [do_select] with (filtered, filteredAll) computed by these loops; it is what the runner and the
+    theorems' [select] execute; Proofs/Shards.v shows that the loops compute the closed forms used in [do_select]
+    ([has_repos_spec]: (existsb p, forallb p); [select_loop_spec]). *)
+Definition has_repos (p : repo -> bool) (repos : list repo) : bool * bool :=
+  fold_left (fun st r => let b := p r in (fst st || b, snd st && b)) repos (false, true).
+
+Definition select_loop (p : repo -> bool) (shards : list shard) : list shard * bool :=
+  fold_left (fun st s =>
+               if negb (sh_known s) then (fst st ++ [s], false)
+               else let '(any, all) := has_repos p (sh_repos s) in
+                    if any then (fst st ++ [s], snd st && all) else st)
+            shards ([], true).
+
+Fixpoint do_select_coded (guard : bool) (shards : list shard) (pre post : list Q) : list shard * list Q :=
+  match post with
+  | [] => (shards, pre)
+  | c :: rest =>
+      match child_pred c with
+      | None => do_select_coded guard shards (pre ++ [c]) rest
+      | Some p =>
+          let '(filtered, filtered_all) := select_loop p shards in
+          match filtered with
+          | [] => (filtered, pre ++ post)
+          | _ =>
+              if negb filtered_all then (filtered, pre ++ post)
+              else match rewrite_child guard filtered c with
+                   | Some c' => (filtered, pre ++ c' :: rest)
+                   | None => (filtered, pre ++ post)
+                   end
+          end
+      end
+  end.
+
 Definition select_gen (guard : bool) (shards : list shard) (cs : list Q) : list shard * list Q :=
-  do_select guard shards [] cs.
+  do_select_coded guard shards [] cs.
 Definition select := select_gen true.
 Definition select_unfixed := select_gen false.
 
@@ -157,6 +195,34 @@ Fixpoint expand (shards : list shard) (q : Q) : Q :=
       QRepoPred (fun r => memN (r_name r) names)
   | _ => q
   end.
+
+(** A per-request memo of evaluated type:repo children keyed by [key child] — NOT what the tree does (typeRepoSearcher.eval
+    lists every atom's own child: [expand]); modelled to state when such sharing is sound (Proofs/ShardsMemo.v: the key must
+    identify only children with the same meaning; query.Q.String() is not such a key).  The traversal order is query.Map's
+    (children first, left to right); the key is computed from the already expanded child. *)
+Section Memo.
+  Context {K : Type} (keqb : K -> K -> bool) (key : Q -> K).
+  Fixpoint memo_find (k : K) (m : list (K * Q)) : option Q :=
+    match m with
+    | [] => None
+    | (k', rs) :: r => if keqb k k' then Some rs else memo_find k r
+    end.
+  Definition tr_set (shards : list shard) (c : Q) : Q :=
+    let names := map le_name (sharded_list shards [c]) in QRepoPred (fun r => memN (r_name r) names).
+  Fixpoint expand_memo (shards : list shard) (q : Q) (m : list (K * Q)) : Q * list (K * Q) :=
+    match q with
+    | QAnd2 a b => let '(a', m1) := expand_memo shards a m in let '(b', m2) := expand_memo shards b m1 in (QAnd2 a' b', m2)
+    | QOr2 a b => let '(a', m1) := expand_memo shards a m in let '(b', m2) := expand_memo shards b m1 in (QOr2 a' b', m2)
+    | QNot a => let '(a', m1) := expand_memo shards a m in (QNot a', m1)
+    | QTypeRepo c =>
+        let '(c', m1) := expand_memo shards c m in
+        match memo_find (key c') m1 with
+        | Some rs => (rs, m1)
+        | None => let rs := tr_set shards c' in (rs, (key c', rs) :: m1)
+        end
+    | _ => (q, m)
+    end.
+End Memo.
 
 (** reference meaning of type:repo: the document's repository (by name) has, in some shard, a document
     matching the child *)
